@@ -48,6 +48,8 @@ func main() {
 		if run.Thorough() {
 			jobs = append(jobs, job(&lockh.LeaseScenario{Kind: "kept", Lease: L, Holds: 2.5, RenewFaults: true}, vsched.Config{P: 0, F: 2, Preempt: fine, MaxSteps: 60000}))
 		}
+		// the context the lock was acquired with ends during the tenure (a storage that honours contexts): the lease is kept all the same
+		jobs = append(jobs, job(&lockh.LeaseScenario{Kind: "kept", Lease: L, Holds: 2.5, CtxEnds: true}, vsched.Config{P: pk, Preempt: fine, MaxSteps: 60000}))
 		for _, h := range []float64{0.3, 0.8, 1.6} {
 			jobs = append(jobs, job(&lockh.LeaseScenario{Kind: "handover", Lease: L, Holds: h}, vsched.Config{P: pk + 1, Preempt: fine, MaxSteps: 60000}))
 		}
@@ -62,6 +64,15 @@ func main() {
 			jobs = append(jobs, job(&lockh.LeaseScenario{Kind: "diesout", Lease: L, SameLocker: same}, vsched.Config{P: pd, Preempt: fine, MaxSteps: 60000}))
 			// a renewal in flight during Unlock that fails transiently must not re-arm anything for the finished tenure
 			jobs = append(jobs, job(&lockh.LeaseScenario{Kind: "diesout", Lease: L, SameLocker: same, RenewFaults: true}, vsched.Config{P: pd - 1, F: 1, Preempt: fine, MaxSteps: 60000}))
+		}
+	}
+	// the same guarantees over kvs/redis (miniredis on the virtual clock; sub-second leases: Redis' TTL arithmetic is in play)
+	cmd := vsched.Mask(vsched.KEnv, vsched.KSleep)
+	for _, L := range []time.Duration{300 * time.Millisecond, 700 * time.Millisecond} {
+		jobs = append(jobs, job(&lockh.LeaseScenario{Kind: "kept", Lease: L, Holds: 2.5, Storage: "redis"}, vsched.Config{P: pk, Preempt: cmd, MaxSteps: 60000}))
+		jobs = append(jobs, job(&lockh.LeaseScenario{Kind: "handover", Lease: L, Holds: 0.8, Storage: "redis"}, vsched.Config{P: pk, Preempt: cmd, MaxSteps: 60000}))
+		for _, ph := range []float64{0, 0.5, 0.999} {
+			jobs = append(jobs, job(&lockh.LeaseScenario{Kind: "lapse", Lease: L, DiePhase: ph, Storage: "redis"}, vsched.Config{P: pk, Preempt: cmd, MaxSteps: 60000}))
 		}
 	}
 	sort.SliceStable(jobs, func(a, b int) bool { return jobs[a].Cfg.P+jobs[a].Cfg.F > jobs[b].Cfg.P+jobs[b].Cfg.F })
